@@ -4,7 +4,7 @@
    robot loop (one pass, then NotifierDelay.wait()) with the NotifierDelay theorems
    of C16: the mode loop creates its NotifierDelay at entry time t0, pass i lasts
    b_i, then wait() is called. *)
-From Coq Require Import ZArith List Lia.
+From Coq Require Import ZArith List Bool Arith Lia.
 From RV Require Import Delay.Model Properties.C16.
 Import ListNotations.
 Open Scope Z_scope.
@@ -36,3 +36,119 @@ Proof.
     apply (C16_exact_when_on_time p t0 bs (S i) c r Hi).
     rewrite (Hs i c0 r0 c r b E0 Hi Eb), (IH c0 r0 E0). specialize (Hb (S i) b Eb). unfold grid. lia.
 Qed.
+
+(* ------------------------------------------------------------------ *)
+(* Late wake-ups.  The thread blocked in HAL_WaitForNotifierAlarm is not rescheduled at the
+   very microsecond of its alarm: [JWait late] is a wait() whose return is [late] us after
+   the moment the HAL would release it.  The object is the NotifierDelay of Delay.Model (same
+   [wait]); only the clock of the caller differs.  [JBody b]: the loop pass takes b us. *)
+Inductive jop := JBody (b : Z) | JWait (late : Z).
+
+Definition jstep (s : nd * Z) (o : jop) : nd * Z :=
+  match o with
+  | JBody b => (fst s, snd s + b)
+  | JWait l => let '(d', t) := wait (fst s) (snd s) in (d', t + l)
+  end.
+
+(* per wait(): FPGA time at the call, at the return, and the alarm the HAL holds afterwards *)
+Fixpoint jlog (s : nd * Z) (ops : list jop) : list (Z * Z * option Z) :=
+  match ops with
+  | [] => []
+  | o :: r =>
+      let s' := jstep s o in
+      match o with
+      | JWait _ => (snd s, snd s', alarm (fst s')) :: jlog s' r
+      | JBody _ => jlog s' r
+      end
+  end.
+
+Definition jsched (bl : list (Z * Z)) : list jop := flat_map (fun x => [JBody (fst x); JWait (snd x)]) bl.
+
+(* whatever the passes and the wake-ups do, the alarms stay on the grid anchored at creation *)
+Fixpoint alarms_from (e p : Z) (n : nat) : list (option Z) :=
+  match n with O => [] | S n' => Some (e + p) :: alarms_from (e + p) p n' end.
+
+Lemma jlog_alarms bl : forall d now, live d = true ->
+  map snd (jlog (d, now) (jsched bl)) = alarms_from (expiry d) (period d) (length bl).
+Proof.
+  induction bl as [|[b l] r IH]; intros d now Hl; [reflexivity|].
+  cbn [jsched flat_map fst snd app jlog jstep length alarms_from map].
+  unfold wait. rewrite Hl. cbn [fst snd alarm]. f_equal.
+  change (flat_map (fun x => [JBody (fst x); JWait (snd x)]) r) with (jsched r).
+  rewrite IH by reflexivity. reflexivity.
+Qed.
+
+Theorem loop_alarms_on_grid p t0 bl :
+  map snd (jlog (create p t0, t0) (jsched bl)) = alarms_from (t0 + p) p (length bl).
+Proof. apply (jlog_alarms bl (create p t0) t0 eq_refl). Qed.
+
+Lemma alarms_from_nth e p n i : (i < n)%nat -> nth_error (alarms_from e p n) i = Some (Some (e + Z.of_nat (S i) * p)).
+Proof.
+  revert e i. induction n as [|n IH]; intros e i Hi; [lia|]. destruct i as [|i]; cbn [alarms_from nth_error].
+  - f_equal. f_equal. lia.
+  - rewrite IH by lia. f_equal. f_equal. lia.
+Qed.
+
+(* passes and wake-up latenesses that fit in the period: [late0] is how late the previous
+   wake-up was *)
+Fixpoint fits (p late0 : Z) (bl : list (Z * Z)) : Prop :=
+  match bl with
+  | [] => True
+  | (b, l) :: r => 0 <= b /\ 0 <= l /\ late0 + b <= p /\ fits p l r
+  end.
+
+(* then the i-th wake-up happens exactly [late_i] after the i-th grid point *)
+Fixpoint wakes_from (e p now : Z) (bl : list (Z * Z)) : list (Z * Z * option Z) :=
+  match bl with
+  | [] => []
+  | (b, l) :: r => (now + b, e + l, Some (e + p)) :: wakes_from (e + p) p (e + l) r
+  end.
+
+Lemma jlog_fits bl : forall d now, live d = true -> alarm d = Some (expiry d) ->
+  fits (period d) (now - (expiry d - period d)) bl ->
+  jlog (d, now) (jsched bl) = wakes_from (expiry d) (period d) now bl.
+Proof.
+  induction bl as [|[b l] r IH]; intros d now Hl Ha Hf; [reflexivity|].
+  cbn [fits] in Hf. destruct Hf as (Hb & Hl0 & Hfit & Hr).
+  cbn [jsched flat_map fst snd app jlog jstep wakes_from].
+  unfold wait. rewrite Hl, Ha. cbn [fst snd alarm hal_wait].
+  change (flat_map (fun x => [JBody (fst x); JWait (snd x)]) r) with (jsched r).
+  replace (Z.max (now + b) (expiry d)) with (expiry d) by lia.
+  f_equal. rewrite IH; cbn [live alarm expiry period]; auto.
+  replace (expiry d + l - (expiry d + period d - period d)) with l by lia. exact Hr.
+Qed.
+
+Lemma wakes_from_nth bl : forall e p now i c r a, nth_error (wakes_from e p now bl) i = Some (c, r, a) ->
+  exists b l, nth_error bl i = Some (b, l) /\ r = e + Z.of_nat i * p + l /\ a = Some (e + Z.of_nat (S i) * p).
+Proof.
+  induction bl as [|[b l] rest IH]; intros e p now i c r a H; [destruct i; discriminate|].
+  destruct i as [|i]; cbn [wakes_from nth_error] in *.
+  - injection H as <- <- <-. exists b, l. split; [reflexivity|]. split; [lia | f_equal; lia].
+  - destruct (IH _ _ _ _ _ _ _ H) as (b' & l' & H1 & H2 & H3). exists b', l'. split; [exact H1|]. split; [lia | subst a; f_equal; lia].
+Qed.
+
+(* one pass per period, late wake-ups included: as long as every pass plus the lateness of the
+   wake-up before it fits in the period, the i-th wake-up of the mode loop happens in the i-th
+   cell of the grid anchored at the creation of the loop's NotifierDelay, exactly [late_i]
+   after its start -- lateness never accumulates *)
+Theorem wakes_in_their_cells p t0 bl : fits p 0 bl ->
+  forall i c r a, nth_error (jlog (create p t0, t0) (jsched bl)) i = Some (c, r, a) ->
+  exists b l, nth_error bl i = Some (b, l) /\ r = grid t0 p (S i) + l /\ a = Some (grid t0 p (S (S i))).
+Proof.
+  intros Hf i c r a H. rewrite (jlog_fits bl (create p t0) t0 eq_refl eq_refl) in H.
+  - cbn [create expiry period] in H. destruct (wakes_from_nth _ _ _ _ _ _ _ _ H) as (b & l & H1 & H2 & H3).
+    exists b, l. unfold grid. split; [exact H1|]. split; [lia | subst a; f_equal; lia].
+  - cbn [create expiry period]. replace (t0 - (t0 + p - p)) with 0 by lia. exact Hf.
+Qed.
+
+(* correspondence: one mode loop of the real robot = (period, creation time, passes and
+   latenesses, what was observed per wait: call, return, alarm programmed) *)
+Definition jcase : Type := Z * Z * list (Z * Z) * list (Z * Z * Z).
+Definition jcheck (x : jcase) : bool :=
+  let '(p, t0, bl, obs) := x in
+  let model := map (fun y => match y with (c, r, Some a) => (c, r, a) | (c, r, None) => (c, r, -1) end)
+                   (jlog (create p t0, t0) (jsched bl)) in
+  (length model =? length obs)%nat &&
+  forallb (fun ab => let '((a1, a2, a3), (b1, b2, b3)) := ab in (a1 =? b1) && (a2 =? b2) && (a3 =? b3)) (combine model obs).
+Definition jbad (l : list jcase) : list nat :=
+  map fst (filter (fun x => negb (jcheck (snd x))) (combine (seq 0 (length l)) l)).
